@@ -140,7 +140,10 @@ def run_ra(tier, seed):
         core.log('[tlc] LeftRightRA NW=%d NR=%d NReads=%d orders=%s: %d distinct, %s' % (nw, nr, nreads, orders, r.distinct, r.violated or 'holds'))
         states += r.distinct
         trans += r.generated
-        if r.error:
+        if r.error == 'timeout' and tier == 'thorough' and not r.violated:
+            info.setdefault('partial', []).append('NW=%d NR=%d NReads=%d: stopped by the time limit after %d distinct states, no violation' % (nw, nr, nreads, r.distinct))
+            continue
+        if r.error and not r.violated:
             raise core.Infra('LeftRightRA failed: %s\n%s' % (r.error, r.out[-2000:]))
         if r.violated:
             rp = core.write_replay('C07', 'weak-memory', json.dumps(orders), 'LeftRightRA.tla', [], [], extra={'tlc_counterexample': r.cex, 'orders': orders})
